@@ -925,6 +925,55 @@ fn gen_timed(g: &mut Gen, tier: Tier) {
             g.emit_b("timed-side", ops, Vec::new());
         }
     }
+    // a function added first that conflicts with the head of a path-rich region: the Data edge the
+    // builder adds points at a function with exponentially many downward paths
+    let heads: &[(usize, bool)] = match tier {
+        Tier::Quick => &[(34, true), (3 * 14, false)],
+        Tier::Thorough => &[(30, true), (40, true), (48, true), (3 * 12, false), (3 * 16, false), (2 * 24, false)],
+    };
+    for &(m, dense) in heads {
+        for setup_first in [true, false] {
+            let mut ops: Vec<Op> = Vec::new();
+            let base = if setup_first {
+                ops.push(f_op(fixed_fid(0), &[Acc::W]));
+                1
+            } else {
+                0
+            };
+            for i in 0..m {
+                ops.push(if i == 0 {
+                    f_op(fixed_fid(base + i), &[Acc::W])
+                } else {
+                    f_plain(fixed_fid(base + i))
+                });
+            }
+            if !setup_first {
+                ops.push(f_op(fixed_fid(m), &[Acc::W]));
+            }
+            if dense {
+                for i in 0..m {
+                    for j in (i + 1)..m {
+                        ops.push(Op::L(base + i, base + j));
+                    }
+                }
+            } else {
+                // head -> layers of 3, complete between consecutive layers
+                let w = 3;
+                let layers = (m - 1) / w;
+                for b in 0..w {
+                    ops.push(Op::L(base, base + 1 + b));
+                }
+                for layer in 0..layers.saturating_sub(1) {
+                    for a in 0..w {
+                        for b in 0..w {
+                            ops.push(Op::L(base + 1 + layer * w + a, base + 1 + (layer + 1) * w + b));
+                        }
+                    }
+                }
+            }
+            g.emit_b("timed-head", ops, Vec::new());
+        }
+    }
 }
 
 // ---------------------------------------------------------------------------------------------
